@@ -3,12 +3,12 @@
 use cgmath::prelude::*;
 use cgmath::{Matrix2, Matrix3, Matrix4, Point2, Point3, Transform};
 
-use crate::clause;
-use crate::conv::*;
-use crate::fw::{Case, Clause};
-use crate::gen::{self, Rng, Tier};
-use crate::model::*;
-use crate::sc::{Ck, Rat, Sc};
+use cgv_core::clause;
+use cgv_core::conv::*;
+use cgv_core::fw::{Case, Clause};
+use cgv_core::gen::{self, Rng, Tier};
+use cgv_core::model::*;
+use cgv_core::sc::{Ck, Rat, Sc};
 
 /// family 0: generic; 1: exactly singular (dependent column, rank n-1 or lower);
 /// 2: singular with one entry perturbed by 10^-k (tiny, possibly zero, determinant)
@@ -153,13 +153,13 @@ macro_rules! dim {
                         // must be singular: violated only if det is certainly non-zero
                         ck.truth(
                             "invert() == None only for det = 0",
-                            singular != crate::iv::Tri::False,
+                            singular != cgv_core::iv::Tri::False,
                         );
                     }
                     Some(n) => {
                         ck.truth(
                             "invert() == Some only for det != 0",
-                            singular != crate::iv::Tri::True,
+                            singular != cgv_core::iv::Tri::True,
                         );
                         ck.eqm("M*N = I", $m(ma * n), mident());
                         ck.eqm("N*M = I", $m(n * ma), mident());
